@@ -482,10 +482,8 @@ class Client(ClientLike):
 
         self.subscribe(msg_list)
         yield
-        self.unsubscribe(msg_list)
-        if paused_list:
-            self.subscribe(paused_list)
-            self.pause_subscription(paused_list)
+        self.unsubscribe([mt for mt in msg_list if mt not in paused_list])
+        self.pause_subscription(paused_list)
 
     @contextmanager
     def paused_subscription_context(self, msg_list: Iterable[int]):
